@@ -17,6 +17,9 @@ RULE = ("exhaustive: every single attribute (8 fg, 8 bg, 6 styles True/False) in
         "plain str, no runs); a catalogue of malformed specifications (unknown names/keys, wrong type, out of range, "
         "duplicates, contradictions) through fmtstr, parse_args and the fmtfuncs; copy_with_new_atts / "
         "new_with_atts_removed / copy_with_new_str / shared_atts over layouts x attribute sets; seeded random specs. "
+        "specifications applied to plain strs that carry SGR sequences (rendered FmtStrs fed back in: the named attributes "
+        "win on every character, = applying to from_str(s), = the model's fromStr then override); shared_atts read again "
+        "after the caller scribbled on / cleared the dict returned earlier; "
         "every valid apply/nest/attribute-op case is run twice - on a fresh operand and on one that was rendered, "
         "measured, hashed and compared first - and the result is also judged by what str(result) displays (independent "
         "SGR reader) and by ==/hash/.s/len against a FmtStr freshly built from its runs. "
@@ -261,6 +264,25 @@ def mk_cases(ctx):
         cases.append(dict(op="nwar", f=f, names=["fg", "fg"]))
         for t in ("", "Z", "new text"):
             cases.append(dict(op="cwns", f=f, t=t))
+    # a plain STR that already carries SGR sequences (a rendered FmtStr fed back in): the applied attributes win over the
+    # ones in the text, on every character, also after a reset inside the text
+    rendered = [[("red", {"fg": 31}), (" plain", {})],
+                [("a", {"bg": 44, "bold": True}), ("b", {}), ("c", {"fg": 32, "underline": True}), ("d", {"fg": 34})],
+                [("x", {"fg": 31, "bg": 41}), ("", {"bold": True}), ("y\n", {"fg": 34, "invert": True, "dark": False}), ("z", {})],
+                [("q", {"blink": True}), ("r", {"italic": True, "fg": 37})]]
+    spool = [sp for sp in sing if sp["named"] and all((k not in ("fg", "bg")) or v in (31, 34, 41, 44) for k, v in sp["named"].items())]
+    ns = 0
+    for g in rendered:
+        for sp in spool + [dict(pos=[], kw=[], func="plain", named={}, sp="func")]:
+            cases.append(dict(op="applystr", g=g, spec=sp, valid=True))
+            ns += 1
+        for a, b in itertools.combinations([sp for sp in spool if sp["sp"] in ("pos", "kwnum", "kwFalse")], 2):
+            if not (set(a["named"]) & set(b["named"])) and combine(a, b):
+                cases.append(dict(op="applystr", g=g, spec=combine(a, b), valid=True))
+                ns += 1
+    ctx.exhaustive.append("specs applied to a plain str carrying SGR sequences (4 rendered strings): %d" % ns)
+    for f in lays:
+        cases.append(dict(op="shared2", f=f))
     # seeded random
     r = ctx.rng
     for _ in range(4000 if ctx.thorough else 600):
@@ -317,6 +339,10 @@ def run_impl(c):
         return call_spec(observe(mid) if obs else mid, c["specs"][1])
     if op == "parse":
         return dict(parse_args(tuple(mkval(v) for v in c["pos"]), {k: mkval(v) for k, v in c["kw"]}))
+    if op == "applystr":
+        return call_spec(str(mk_fmt(c["g"])), c["spec"])
+    if op == "applystr-named":
+        return fmtstr(str(mk_fmt(c["g"])), **c["spec"]["named"])
     f = real_f(c["f"], obs)
     if op == "shared":
         return dict(f.shared_atts)
@@ -341,6 +367,9 @@ def line(c):
         return spec_line(model_f(c["f"]), c["spec"])
     if op == "parse":
         return "parseargs %s %s" % (enc_pos(c["pos"]), enc_kw(c["kw"]))
+    if op == "applystr-named":
+        a = wire.enc_atts(c["spec"]["named"])
+        return "fmtstr %s%s" % (wire.enc_tf(str(mk_fmt(c["g"]))), (" " + a) if a else "")
     if op == "shared":
         return "shared %s" % wire.enc_chunks(c["f"])
     if op == "cwna":
@@ -417,6 +446,48 @@ def _oracle(c):
         exc = None
     except Exception as e:  # noqa: BLE001
         r, exc = None, e
+    if op == "applystr":
+        if exc is not None:
+            return "fmtstr on a str with SGR sequences raised %s: %s" % (type(exc).__name__, exc)
+        named = c["spec"]["named"]
+        exp = [(ch, tuple(sorted(dict({k: v for k, v in a if v is not False}, **named).items())))
+               for ch, a in wire.cells_of_chunks(c["g"])]
+        if cells(r) != exp:
+            return ("formatting applied to a str carrying SGR sequences: got %r, expected the text's own formatting "
+                    "overridden by the named attributes %r" % (cells(r), exp))
+        via = call_spec(FmtStr.from_str(str(mk_fmt(c["g"]))), c["spec"])
+        if cells(via) != cells(r):
+            return "fmtstr(s, spec) differs from fmtstr(FmtStr.from_str(s), spec): %r vs %r" % (cells(r), cells(via))
+        return shown(r, exp)
+    if op == "shared2":
+        if not c["f"]:
+            return None
+        f = mk_fmt(c["f"])
+        first = dict(f.shared_atts)
+        d = f.shared_atts
+        try:                                  # a caller scribbling on the dict it was handed
+            d["bold"] = True
+            d["fg"] = 35
+            d.pop("bg", None)
+            d.pop("underline", None)
+        except Exception:  # noqa: BLE001 - an immutable mapping is fine too
+            pass
+        second = dict(f.shared_atts)
+        if second != first:
+            return "shared_atts reports %r after the caller edited the dict returned earlier (first read: %r)" % (second, first)
+        d = f.shared_atts
+        try:
+            d.clear()
+        except Exception:  # noqa: BLE001
+            pass
+        third = dict(f.shared_atts)
+        if third != first:
+            return "shared_atts reports %r after the caller cleared the dict returned earlier (first read: %r)" % (third, first)
+        for k, v in third.items():
+            for ch, a in wire.cells_of_chunks(c["f"]):
+                if (k, v) not in a:
+                    return "shared_atts reports %s=%r which character %r does not have" % (k, v, ch)
+        return None
     if op in ("apply", "nest", "parse") and c["valid"] is False:
         if exc is None:
             return "malformed specification accepted: returned %r" % (r,)
@@ -501,6 +572,11 @@ def check(ctx):
     cases = mk_cases(ctx)
     tied = []
     for c in cases:
+        if c["op"] == "shared2":
+            continue
+        if c["op"] == "applystr":
+            tied.append(dict(c, op="applystr-named"))
+            continue
         if c["op"] == "nest":
             # tie the two steps separately: the second step starts from the real result of the first
             try:
@@ -550,7 +626,7 @@ def search(ctx):
 def replay(payload):
     c = payload["case"]
     out = dict(case=c, oracle=oracle(c))
-    if c["op"] != "nest":
+    if c["op"] not in ("nest", "shared2", "applystr"):
         out["implementation"] = impl(c)
         out["model_request"] = line(c)
     return out
